@@ -172,8 +172,11 @@ def _havoc(interp, frame, spec, modified_names, tag):
         if isinstance(ty, _MListOf):
             continue
         if ty is None:
-            raise Unsupported('loop %s#%s assigns %r which is not declared in modifies'
-                              % (spec.qname, spec.ordinal, name))
+            # a name the loop specification does not know (a temporary introduced by a later edit of the
+            # function): treated as a loop-local temporary, i.e. UNBOUND at the loop head and after the loop.
+            # Conservative: a read of a value carried over from another iteration or from before the loop
+            # fails (UnboundLocalError on that path) instead of seeing a stale value.
+            ty = 'local'
         if ty == 'in-place':
             continue
         if ty == 'local':      # a loop-local temporary: dead at loop head
@@ -418,6 +421,13 @@ def exec_for(interp, node, frame):
             x = next(it)
         except StopIteration:
             break
+        except (Unsupported, PathAbort):
+            raise
+        except Exception as e:
+            from .interp import PyRaise
+            if isinstance(e, PyRaise) or type(e).__module__.startswith('pyvc'):
+                raise
+            raise PyRaise(e)         # a native iterator (e.g. Path.iterdir of a concrete path) raised
         interp.assign(node.target, x, frame)
         r = interp.exec_block(node.body, frame)
         if r is not None:
